@@ -26,7 +26,7 @@
    codes: 1 the run differs from RefSem's prediction; 2 the specification rejects the observation
    (wrong result, wrong sequence of callback invocations, input changed, the script did not receive
    the table the host built, crash); 3 the case is outside the checker's precondition (malformed
-   log, not well-scoped, semantics out of fuel); 10 a code 2 in a case of the class [unrooted]:
+   log, not well-scoped, semantics out of fuel); formerly 10 (now plain 2) for a case of the class [unrooted]:
    the input was built by Vm::insert_value under a memory limit small enough for collections
    (known finding F-1 in known_findings.json: insert_value holds the keys and nested values it
    creates unrooted while it allocates the next ones, so the table handed to the script can miss
@@ -253,7 +253,9 @@ Definition check1 (c : c09case) : list N :=
             (if spec then spec_check f touches hostin k g l else []) ++
             (if predict then predict_check m host k g l else [])
         end in
-      if unrooted then map (fun c => if N.eqb c 2 then 10 else c) codes else codes
+      (* F-1 (insert_value unrooted) is repaired in /repo (a1ac5c5): no relabelling, a code 2 in the
+         class [unrooted] is an ordinary violation *)
+      codes
   end.
 
 Definition check_all := CheckUtil.check_all check1.
